@@ -49,3 +49,79 @@ Proof. rewrite aggregate_fold_proj. cbn [map]. apply (aggregate_counts pkey pkey
 Theorem variants_aggregate_once (mk : variant -> akey) (lists : list (list variant)) :
   keys_distinct pkey (map pj (fold_left (fun cs l => fold_left (fun cs v => count_key (mk v) cs) l cs) lists [])).
 Proof. rewrite aggregate_fold_proj. cbn [map]. apply (aggregate_keys_distinct pkey pkey_eqb pkey_eqb_eq). constructor. Qed.
+
+(* ---- the table of the variants aggregator (before the threshold), on the projected keys ---- *)
+Theorem variants_aggregate_table (mk : variant -> akey) (lists : list (list variant)) :
+  Forall (@NoDup pkey) (map (map (fun v => akey_proj (mk v))) lists) -> forall k c,
+  In (k, c) (map pj (fold_left (fun cs l => fold_left (fun cs v => count_key (mk v) cs) l cs) lists [])) <->
+  (0 < c)%nat /\ c = length (filter (fun l => existsb (pkey_eqb k) l) (map (map (fun v => akey_proj (mk v))) lists)).
+Proof.
+  intros Hnd k c. rewrite aggregate_fold_proj. cbn [map].
+  apply (aggregate_table pkey pkey_eqb pkey_eqb_eq _ Hnd k c).
+Qed.
+
+(* ---- the order of the printed list: akey_lt is a strict order, so the sorted list is ordered by it, and in
+   particular by genomic position ---- *)
+Lemma bytes_ltb_irrefl a : bytes_ltb a a = false.
+Proof. induction a as [|x a IH]; [reflexivity|]. cbn [bytes_ltb]. rewrite N.ltb_irrefl, N.eqb_refl, IH. reflexivity. Qed.
+Lemma bytes_ltb_trans a : forall b c, bytes_ltb a b = true -> bytes_ltb b c = true -> bytes_ltb a c = true.
+Proof.
+  induction a as [|x a IH]; intros [|y b] [|z c]; cbn [bytes_ltb]; try discriminate; try reflexivity.
+  rewrite !orb_true_iff, !andb_true_iff, !N.ltb_lt, !N.eqb_eq.
+  intros [H1|[E1 H1]] [H2|[E2 H2]].
+  - left; lia.
+  - left; lia.
+  - left; lia.
+  - right. split; [lia|]. exact (IH b c H1 H2).
+Qed.
+
+Lemma akey_lt_irrefl a : akey_lt a a = false.
+Proof. unfold akey_lt. rewrite !Z.ltb_irrefl, !bytes_ltb_irrefl, !andb_false_r. reflexivity. Qed.
+
+Lemma akey_lt_trans a b c : akey_lt a b = true -> akey_lt b c = true -> akey_lt a c = true.
+Proof.
+  unfold akey_lt. cbv zeta.
+  generalize (v_pos (k_v a)) (v_pos (k_v b)) (v_pos (k_v c)). intros pa pb pc.
+  generalize (kind_rank (v_kind (k_v a))) (kind_rank (v_kind (k_v b))) (kind_rank (v_kind (k_v c))). intros ka kb kc.
+  generalize (v_queal (k_v a)) (v_queal (k_v b)) (v_queal (k_v c)). intros qa qb qc.
+  generalize (k_rep a) (k_rep b) (k_rep c). intros ra rb rc.
+  repeat (rewrite orb_true_iff || rewrite andb_true_iff). rewrite !Z.ltb_lt, !Z.eqb_eq, !list_eqb_eq.
+  intros [H1|[E1 [H1|[F1 [H1|[G1 H1]]]]]] [H2|[E2 [H2|[F2 [H2|[G2 H2]]]]]]; try (left; lia).
+  all: right; split; [lia|]; try (left; lia).
+  all: right; split; [lia|].
+  - left. exact (bytes_ltb_trans _ _ _ H1 H2).
+  - left. subst qc. exact H1.
+  - left. subst qb. exact H2.
+  - right. split; [congruence|]. exact (bytes_ltb_trans _ _ _ H1 H2).
+Qed.
+
+Theorem variants_agg_sorted (counts : list (akey * nat)) :
+  sorted (akey * nat) (fun a b => akey_lt (fst a) (fst b)) (ssort (akey * nat) (fun a b => akey_lt (fst a) (fst b)) counts).
+Proof. apply ssort_sorted; [intros x; apply akey_lt_irrefl|intros x y z; apply akey_lt_trans]. Qed.
+
+(* ... hence by genomic position: every later row's position is not smaller *)
+From Coq Require Import Sorted.
+Theorem variants_agg_positions_ascending (counts : list (akey * nat)) :
+  StronglySorted (fun a b => (v_pos (k_v (fst a)) <= v_pos (k_v (fst b)))%Z)
+                 (ssort (akey * nat) (fun a b => akey_lt (fst a) (fst b)) counts).
+Proof.
+  pose proof (variants_agg_sorted counts) as H. revert H.
+  generalize (ssort (akey * nat) (fun a b => akey_lt (fst a) (fst b)) counts). intros l.
+  induction l as [|x t IH]; intros H; [constructor|]. cbn [sorted] in H. destruct H as [H1 H2].
+  constructor; [apply IH; exact H2|]. apply Forall_forall. intros y Hy. specialize (H1 y Hy).
+  unfold akey_lt in H1. apply orb_false_iff in H1 as [H1 _]. apply Z.ltb_ge in H1. exact H1.
+Qed.
+
+(* the printed rows: the sorted table rows whose frequency is not below the threshold *)
+Theorem aggregate_rows_spec append_snp s e thr refid recs :
+  let qs := filter (fun nv => negb (list_eqb (fst nv) refid)) recs in
+  let n := length qs in
+  let freq (kn : akey * nat) := f64_div_Z (Z.of_nat (snd kn)) (Z.of_nat n) in
+  let counts := fold_left (fun cs nv =>
+                  fold_left (fun cs v => count_key {| k_v := v; k_rep := format_variant append_snp v |} cs)
+                            (filter (in_window s e) (snd nv)) cs) qs [] in
+  aggregate_rows append_snp s e thr refid recs =
+  concat (map (fun kn => k_rep (fst kn) ++ [44] ++ fmt_f9 (freq kn) ++ [NL])
+              (filter (fun kn => negb (f64_ltb (freq kn) thr))
+                      (ssort (akey * nat) (fun a b => akey_lt (fst a) (fst b)) counts))).
+Proof. intros qs n freq counts. unfold aggregate_rows. apply (concat_map_if (fun kn => f64_ltb (freq kn) thr)). Qed.
